@@ -32,6 +32,8 @@ func evBitsString(b uint8) string {
 type Ev struct {
 	Name  string
 	Match func(info *types.Info, call *ast.CallExpr) bool
+	// MatchNode, if set, marks a non-call event (e.g. an assignment); it is recorded as executed (eOK).
+	MatchNode func(info *types.Info, n ast.Node) bool
 	// Sticky: once succeeded, a later execution that is pending does not reset the fact
 	// (used for "at least one success").
 }
@@ -156,9 +158,16 @@ func newE3(p *Prog, fn *Fn, evs []Ev) *E3 {
 		Entry: entry,
 		Transfer: func(n ast.Node, s e3State) e3State {
 			matched := [maxEv]bool{}
+			for i, ev := range evs {
+				if ev.MatchNode != nil {
+					if ev.MatchNode(info, n) {
+						s.bits[i], s.errs[i] = eOK, nil
+					}
+				}
+			}
 			for _, nc := range nodeCalls(info, n) {
 				for i, ev := range evs {
-					if !ev.Match(info, nc.call) {
+					if ev.Match == nil || !ev.Match(info, nc.call) {
 						continue
 					}
 					matched[i] = true
@@ -265,7 +274,7 @@ func (e *E3) Calls(name string) []*ast.CallExpr {
 		}
 		for _, n := range b.Nodes {
 			for _, nc := range nodeCalls(info, n) {
-				if ev.Match(info, nc.call) {
+				if ev.Match != nil && ev.Match(info, nc.call) {
 					out = append(out, nc.call)
 				}
 			}
